@@ -19,6 +19,11 @@ def fit_iroas(spec, history=None, **kw):
   if history is not None:
     m.fit(tbrfam.build_df(history), **tbrfam.fit_kwargs(history))
     m.summary(level=0.9, tails=1, nsims=50, random_state=1)
+    for metric in ('tbr_response', 'tbr_cost'):        # every report of the earlier experiment was read
+      try:
+        m.estimate_pointwise_and_cumulative_effect(metric=metric, level=0.9, tails=2)
+      except Exception:
+        pass
   m.fit(tbrfam.build_df(spec, **kw), **tbrfam.fit_kwargs(spec))
   return m
 
@@ -73,8 +78,9 @@ def analyse(seed):
   if r2.random() < 0.4:                      # the object analysed an experiment of the other cost scenario before
     history = tbrfam.gen_frame(seed + 77, cooldown=spec['n_cool'] > 0, scenario='variable' if want_fixed else 'fixed')
   out['reused'] = history is not None
+  rstate = r2.choice([0, 7, 12345])                 # the seed is the caller's: 0 is a seed like any other
   m = fit_iroas(spec, history=history)
-  rep = row(m.summary(level=level, posterior_threshold=thr, tails=tails, nsims=2000, random_state=7))
+  rep = row(m.summary(level=level, posterior_threshold=thr, tails=tails, nsims=2000, random_state=rstate))
   if rep['scenario'] != ('fixed' if want_fixed else 'variable'):
     out['fails'].append('scenario labelled %s but the non-incremental cost is %r' % (rep['scenario'], non_incr))
     return out
@@ -95,7 +101,7 @@ def analyse(seed):
     if not close(rep['probability'], rs['probability'], 1e-8, 1e-9):
       out['fails'].append('probability differs from P(response effect > threshold x cost)')
   else:
-    rep2 = row(m.summary(level=level, posterior_threshold=thr, tails=tails, nsims=2000, random_state=7))
+    rep2 = row(m.summary(level=level, posterior_threshold=thr, tails=tails, nsims=2000, random_state=rstate))
     if any(not close(rep[c], rep2[c], 0, 0) for c in rep if not isinstance(rep[c], str)):
       out['fails'].append('variable-cost report is not a deterministic function of the data and random_state')
   if not (lo <= est <= up):
@@ -104,7 +110,8 @@ def analyse(seed):
       out['known'].append((KNOWN_LVL, msg))
     elif rep['scenario'] == 'variable':
       dc = m.tbr_cost.causal_cumulative_distribution(periods=(m.periods.test,), time=-1)
-      z = abs(float(dc.kwds['loc'])) / float(dc.kwds['scale'])
+      sc_ = float(dc.kwds['scale'])
+      z = abs(float(dc.kwds['loc'])) / sc_ if sc_ > 0 else float('inf')
       if level <= 0.5 or z < 8:
         out['known'].append((KNOWN_VAR, msg + ' (cost effect %.1f posterior scales from zero)' % z))
       else:
@@ -114,7 +121,7 @@ def analyse(seed):
   # unit change: cost x a, response x b (powers of two: exact)
   a, b = rng.choice([2.0, 0.5, 4.0]), rng.choice([2.0, 8.0, 0.25])
   spec2 = dict(spec, geos=[dict(g, cost=[c * a for c in g['cost']], response=[r * b for r in g['response']]) for g in spec['geos']])
-  rep3 = row(fit_iroas(spec2).summary(level=level, posterior_threshold=thr * b / a, tails=tails, nsims=2000, random_state=7))
+  rep3 = row(fit_iroas(spec2).summary(level=level, posterior_threshold=thr * b / a, tails=tails, nsims=2000, random_state=rstate))
   if rep3['scenario'] != rep['scenario']:
     out['fails'].append('scenario changes under a change of units')
   else:
